@@ -614,15 +614,23 @@ package values
 //@ requires typ: typ != 0
 //@ assigns nothing
 
+// a string operand is the number it spells, or an error when it spells none (C17)
 //@ func values.convertValueToInt
 //@ props C01 C17
 //@ panics nothing
-//@ assigns nothing
+//@ assigns alloc *
+//@ ensures bools: is(value, bool) ==> result1 == nil && result0 == ite(as(value, bool), 1, 0)
+//@ ensures numerals: is(value, string) && spellsint(as(value, string)) ==> result1 == nil && result0 == parseint(as(value, string))
+//@ ensures notANumber: is(value, string) && !spellsint(as(value, string)) ==> result1 != nil
+//@ ensures others: !is(value, bool) && !is(value, string) && !is(value, json.Number) ==> result1 != nil
 
 //@ func values.convertValueToFloat
 //@ props C01 C17
 //@ panics nothing
-//@ assigns nothing
+//@ assigns alloc *
+//@ ensures numerals: is(value, string) && spellsflt(as(value, string)) ==> result1 == nil && result0 == parseflt(as(value, string))
+//@ ensures notANumber: is(value, string) && !spellsflt(as(value, string)) ==> result1 != nil
+//@ ensures others: !is(value, string) && !is(value, json.Number) ==> result1 != nil
 
 // sort: "key": the comparator never panics, whatever the elements are (C01, C15)
 // and orders by that property: elements without the property sort first or last as requested,
